@@ -370,4 +370,185 @@ def serveAll (c : Cfg) : ServerState → List (Req × Nat × Inner) → List Res
     let (resp, st') := serveSt true c r n i st
     resp :: serveAll c st' rest
 
+/-! ### the site as it is WRITTEN
+
+A directive may be written on several lines of a server block.  All lines of one directive reach
+its setup function as one token stream, and it builds ONE middleware from them (setup.go of log,
+gzip, header, errors, templates): a list of rules / configs, searched in the order written for the
+first that matches the request; `errors` merges its lines into one handler.  `Site` is the
+configuration as written (what the stream puts into the Casketfile, line by line); `Site.cfg`
+computes its MEANING for a request path — which of the wrappers act on this request —, and
+`siteChain` is the chain in terms of the rule lists, as the handlers are written.  `siteChain_eq`
+(Proofs) shows that it is `chain` of the meaning, so every spelling of the same meaning gets the
+same response and every theorem about `serve` is a theorem about every way of writing the site. -/
+
+/-- httpserver.Path.Matches for rule paths without trailing or doubled slashes: "/" and ""
+match everything, otherwise a prefix test that ignores letter case (CaseSensitivePath is off) -/
+def pathMatches (path scope : String) : Bool :=
+  scope == "/" || scope == "" || (scope.toList.map Char.toLower).isPrefixOf (path.toList.map Char.toLower)
+
+/-- one `log` line: `log [<scope>] <out> [<format>]` — only what decides the response is kept
+symbolic (the output name and the format are carried along to show that they decide nothing) -/
+structure LogLine where
+  scope : Option String    -- none: the one-argument form, scope "/"
+  out   : String
+  fmt   : Option String
+deriving Repr, DecidableEq
+
+/-- log.Entry: a format and its httpserver.Logger; `started`: the logger was opened by the
+instance's startup callback (`entry.Log.Attach(c)` in setup registers it) — Println on a logger
+that was never started dereferences a nil mutex -/
+structure LogEntry where
+  out     : String
+  fmt     : String
+  started : Bool
+deriving Repr, DecidableEq
+
+structure LogRule where
+  scope   : String
+  entries : List LogEntry
+deriving Repr, DecidableEq
+
+/-- setup.go appendEntry: a line whose scope already has a rule adds an entry to that rule -/
+def appendEntry : List LogRule → String → LogEntry → List LogRule
+  | [], sc, e => [⟨sc, [e]⟩]
+  | r :: rs, sc, e => if r.scope = sc then { r with entries := r.entries ++ [e] } :: rs else r :: appendEntry rs sc e
+
+def logParse (lines : List LogLine) : List LogRule :=
+  lines.foldl (fun rules l => appendEntry rules (l.scope.getD "/") ⟨l.out, l.fmt.getD "{common}", false⟩) []
+
+/-- log's setup(): every entry of every rule is attached, whatever output it names -/
+def logSetup (lines : List LogLine) : List LogRule :=
+  (logParse lines).map fun r => { r with entries := r.entries.map fun e => { e with started := true } }
+
+/-- Logger.ServeHTTP: the first rule whose scope matches the path -/
+def logRuleFor (rules : List LogRule) (path : String) : Option LogRule :=
+  rules.find? fun r => pathMatches path r.scope
+
+/-- Logger.ServeHTTP for the rule found: no rule — the request is passed on untouched; a rule —
+`logW`, then one line per entry (an entry that was not started panics there, after the response) -/
+def logRuleW (rule : Option LogRule) (b : Beh) : Beh :=
+  match rule with
+  | none => b
+  | some r => if r.entries.all (·.started) then logW b else ⟨(logW b).ops, .panic⟩
+
+/-- one `gzip` line: the paths excluded with `not`, the level; the extension filter is the default
+one (`Req.html` says whether the request passes it) -/
+structure GzipLine where
+  notPaths : List String
+  level    : Option Nat
+deriving Repr, DecidableEq
+
+/-- Gzip.ServeHTTP: the first config all of whose request filters let the request through -/
+def gzipConfigFor (cfgs : List GzipLine) (path : String) (html : Bool) : Option GzipLine :=
+  cfgs.find? fun g => !g.notPaths.any (pathMatches path) && html
+
+/-- one `header` line: the path it is for, the number of fields it gives (what the fields are
+is not judged: the property allows configured header changes) -/
+structure HeaderLine where
+  scope  : String
+  fields : Nat
+deriving Repr, DecidableEq
+
+inductive ErrArg where
+  | none | visible | logFile (name : String)
+deriving Repr, DecidableEq
+
+/-- one `errors` line: its argument and the statuses its block gives pages for -/
+structure ErrLine where
+  arg   : ErrArg
+  pages : List Nat
+deriving Repr, DecidableEq
+
+/-- errors.ErrorHandler as errorsParse leaves it: one handler for all lines -/
+structure ErrHandler where
+  debug  : Bool
+  pages  : List Nat
+  logOut : String
+deriving Repr, DecidableEq
+
+def errorsParse (lines : List ErrLine) : ErrHandler :=
+  lines.foldl (fun h l =>
+    let h1 := match l.arg with
+      | .none => h
+      | .visible => { h with debug := true }
+      | .logFile n => { h with logOut := n }
+    { h1 with pages := h1.pages ++ l.pages }) ⟨false, [], ""⟩
+
+/-- the modes the model of `errors` has: visible without pages, a page for 404, neither -/
+def errModeOf (h : ErrHandler) : ErrMode :=
+  if h.debug then .visible else if h.pages.contains 404 then .page404 else .plain
+
+/-- … and the handlers that are one of these modes -/
+def ErrHandler.modelled (h : ErrHandler) : Bool :=
+  (h.pages == [] || (h.pages == [404] && !h.debug))
+
+/-- one `templates` line: its path; its extension list counts .html and not .bin (the two kinds
+of request path the model has) -/
+structure TplLine where
+  path : String
+deriving Repr, DecidableEq
+
+/-- Templates.ServeHTTP: the first rule whose path matches -/
+def tplRuleFor (rules : List TplLine) (path : String) : Option TplLine :=
+  rules.find? fun t => pathMatches path t.path
+
+structure Site where
+  log       : List LogLine
+  gzip      : List GzipLine
+  header    : List HeaderLine
+  errors    : List ErrLine
+  templates : List TplLine
+  loaded    : Bool := true   -- from a Casketfile (InspectServerBlocks ran)
+deriving Repr, DecidableEq
+
+/-- the `errors` handler of the site: the lines written, or — InspectServerBlocks — a plain
+`errors` when the site has a `gzip` directive and none of its own -/
+def Site.errMode (s : Site) : Option ErrMode :=
+  if s.errors.isEmpty then (if !s.gzip.isEmpty && s.loaded then some .plain else none)
+  else some (errModeOf (errorsParse s.errors))
+
+def Site.modelled (s : Site) : Bool := (errorsParse s.errors).modelled
+
+/-- the meaning of the site for a request: which wrappers act on it -/
+def Site.cfg (s : Site) (path : String) : Cfg :=
+  { log := (logRuleFor (logSetup s.log) path).isSome,
+    gzip := (s.gzip.any fun g => !g.notPaths.any (pathMatches path)),
+    header := !s.header.isEmpty,   -- Headers.ServeHTTP wraps the writer whether or not a rule matches
+    errors := s.errMode,
+    templates := (tplRuleFor s.templates path).isSome,
+    inject := false }
+
+/-- Templates.ServeHTTP for the rule found: none — the request is passed on untouched -/
+def tplRuleW (rule : Option TplLine) (html : Bool) (i : Inner) : Beh :=
+  match rule with
+  | some _ => templatesW html i
+  | none => i.beh
+
+/-- Gzip.ServeHTTP for the config found: none ("no matching filter") — passed on untouched -/
+def gzipConfigW (cfg : Option GzipLine) (b : Beh) : Beh :=
+  match cfg with
+  | some _ => gzipW b
+  | none => b
+
+def errorsOptW (m : Option ErrMode) (b : Beh) : Beh :=
+  match m with
+  | some mm => errorsW mm b
+  | none => b
+
+/-- the chain in terms of the rule lists: templates (first matching rule), errors (one handler),
+header, gzip (first config that lets the request through), log (first matching rule) -/
+def siteChain (s : Site) (path : String) (r : Req) (n : Nat) (i : Inner) : Beh :=
+  let b1 := pre n (tplRuleW (tplRuleFor s.templates path) r.html i)
+  let b2 := errorsOptW s.errMode b1
+  let b3 := if s.header.isEmpty then b2 else headerW b2
+  let b4 := if r.ae then gzipConfigW (gzipConfigFor s.gzip path r.html) b3 else b3
+  logRuleW (logRuleFor (logSetup s.log) path) b4
+
+def siteServe (s : Site) (path : String) (r : Req) (n : Nat) (i : Inner) : Resp :=
+  runOps (serverW (siteChain s path r n i))
+
+def siteServeWire (s : Site) (path : String) (r : Req) (n : Nat) (i : Inner) : Resp :=
+  wire r.head (siteServe s path r n i)
+
 end Casket.Mw
